@@ -490,8 +490,8 @@ func largeTotals(L int, thorough bool) []largeTotal {
 	}
 	frac := func(num, den int) { add(fmt.Sprintf("%d/%d L", num, den), int(int64(L)*int64(num)/int64(den))) }
 	if !thorough {
-		for k := 16; k <= 32; k += 2 {
-			frac(k, 32)
+		for k := 4; k <= 8; k++ {
+			frac(k, 8)
 		}
 		for _, pm := range []int{760, 770, 780, 900, 990} {
 			frac(pm, 1000)
@@ -506,7 +506,7 @@ func largeTotals(L int, thorough bool) []largeTotal {
 	for k := 4; k <= 64; k += 2 {
 		frac(k, 64)
 	}
-	for pm := 700; pm <= 1000; pm += 10 {
+	for pm := 700; pm <= 1000; pm += 20 {
 		frac(pm, 1000)
 	}
 	for d := -3; d <= 3; d++ {
@@ -528,11 +528,11 @@ func largeTotals(L int, thorough bool) []largeTotal {
 
 func largeBoundsOf(L int, thorough bool) largeBounds {
 	b := largeBounds{totals: largeTotals(L, thorough)}
-	full := largeTotal{"32/32 L", L}
+	full := largeTotal{"8/8 L", L}
 	if thorough {
 		full.Name = "64/64 L"
 	}
-	half := largeTotal{"16/32 L", L / 2}
+	half := largeTotal{"4/8 L", L / 2}
 	if thorough {
 		half.Name = "32/64 L"
 	}
@@ -590,7 +590,7 @@ func largeCases(L int, thorough bool) (cases []largeCase, b largeBounds) {
 						if tail != "none" && !tailed(s) {
 							continue
 						}
-						if method == "da-submit" && tail != "none" && tail != "oversize-last" && tail != "blob-of-L" {
+						if method == "da-submit" && tail != "none" && tail != "oversize-last" && !(thorough && tail == "blob-of-L") {
 							continue // DA.Submit sends everything: the list shapes matter, not where the client would cut
 						}
 						add(largeCase{Backing: kind, Limit: uint64(L), Method: method, TotalName: t.Name, Total: t.Bytes, Shape: s, Tail: tail})
@@ -744,7 +744,7 @@ func largePart(r *vf.Run, workers int, deadline time.Duration) (out largeResult)
 	}
 	out.Bounds = map[string]any{
 		"limit_L(client default MaxBlobSize = backing limit)": L, "totals": names(b.totals), "shapes": shapes(b.shapes), "tails": b.tails,
-		"shapes_with_tails": shapes(b.tailsOn), "methods": []string{"types.SubmitWithHelpers", "DA.Submit (tails none, blob-of-L, oversize-last)"},
+		"shapes_with_tails": shapes(b.tailsOn), "methods": []string{"types.SubmitWithHelpers", "DA.Submit (tails none, oversize-last; thorough also blob-of-L)"},
 		"earlier_full_batches_at_the_same_height": b.crowd, "crowded_totals": names(b.crowdT), "crowded_shapes": shapes(b.crowdS), "backings": b.kinds,
 		"cases": len(cases), "elapsed_s": time.Since(started).Seconds(),
 	}
